@@ -23,6 +23,9 @@ struct Inst {
   std::vector<std::vector<float>> fcost;    // used when isFloat
   bool isFloat = false;
   bool needIncrease = false;
+  // object history before the judged solve: 0 none, 1 an earlier solve(), 2 an initial
+  // assignment (every source to sink histSink), 3 solve() then that assignment
+  int history = 0, histSink = 0;
   std::string costClass, capClass;
   std::string json() const {
     std::ostringstream s;
@@ -59,6 +62,8 @@ bool judge(const Inst &in, Report &R, bool haveOpt, i128 opt, bool &nontrivial) 
     if (in.needIncrease) pb.increaseCapacity();
     if (pb.totalDemand() > pb.totalCapacity())
       return R.fail("increaseCapacity left demand above capacity");
+    if (in.history == 1 || in.history == 3) pb.solve();
+    if (in.history >= 2) pb.setAssignment(std::vector<int>(in.dem.size(), in.histSink % (int)in.cap.size()));
     pb.solve();
     cap = pb.capacities();
     dem = pb.demands();
@@ -277,6 +282,11 @@ Inst decode(Tape &t, bool thorough) {
 
 bool prop(Tape &t, Report &R) {
   Inst in = decode(t, R.thorough());
+  // decided last: what happened to the solver object before the judged solve()
+  in.history = t.weighted({3, 1, 1, 1});
+  in.histSink = (int)(t.next() % 16);
+  static const char *hn[] = {"history:none", "history:solve-twice", "history:setAssignment-then-solve", "history:solve-setAssignment-solve"};
+  R.classify(hn[in.history]);
   R.classify("cost:" + in.costClass);
   R.classify("capacity:" + in.capClass);
   R.classify(in.cap.size() == 1 ? "sinks:1" : in.cap.size() == 2 ? "sinks:2"
